@@ -223,4 +223,99 @@ example : (number 1 [("a.go", 2), ("b/c.go", 0), ("d.go", 3)]).map (fun iv => (i
 example : collect (fun d => if d = 0 then [1, 2] else if d = 1 then [2, 3] else if d = 3 then [1] else []) 5 0 [] = [3, 2, 1] := by
   simp [collect, collectL]
 
+/-! ## service start: exactly the selected main packages with a non-empty id list, each once -/
+
+theorem isMainEntry_iff (entries : List String) (dir : String) :
+    isMainEntry entries dir = true ↔ "*" ∈ entries ∨ dir ∈ entries := by
+  unfold isMainEntry
+  simp only [List.any_eq_true, Bool.or_eq_true, beq_iff_eq]
+  constructor
+  · rintro ⟨e, he, h | h⟩
+    · exact Or.inl (h ▸ he)
+    · exact Or.inr (h ▸ he)
+  · rintro (h | h)
+    · exact ⟨"*", h, Or.inl rfl⟩
+    · exact ⟨dir, h, Or.inr rfl⟩
+
+/-- a directory whose name merely starts with a listed entry is not selected -/
+theorem isMainEntry_lookalike (e d : String) (h1 : e ≠ "*") (h2 : e ≠ d) : isMainEntry [e] d = false := by
+  simp [isMainEntry, h1, h2]
+
+theorem serviceStartsFrom_mem (entries : List String) (mains : List (String × List Nat)) : ∀ (i0 j : Nat),
+    j ∈ serviceStartsFrom entries i0 mains ↔
+      ∃ k d ids, mains[k]? = some (d, ids) ∧ j = i0 + k ∧ isMainEntry entries d = true ∧ ids ≠ [] := by
+  induction mains with
+  | nil => intro i0 j; simp [serviceStartsFrom]
+  | cons m r ih =>
+    intro i0 j
+    obtain ⟨d, ids⟩ := m
+    simp only [serviceStartsFrom, List.mem_append, ih]
+    constructor
+    · rintro (h | ⟨k, d', ids', h1, h2, h3, h4⟩)
+      · by_cases hc : (isMainEntry entries d && !ids.isEmpty) = true
+        · simp only [hc, if_true, List.mem_singleton] at h
+          simp only [Bool.and_eq_true, Bool.not_eq_true', List.isEmpty_eq_false_iff] at hc
+          exact ⟨0, d, ids, by simp, by omega, hc.1, hc.2⟩
+        · simp [hc] at h
+      · exact ⟨k + 1, d', ids', by simpa using h1, by omega, h3, h4⟩
+    · rintro ⟨k, d', ids', h1, h2, h3, h4⟩
+      cases k with
+      | zero =>
+        simp at h1
+        obtain ⟨rfl, rfl⟩ := h1
+        left
+        have : (isMainEntry entries d && !ids.isEmpty) = true := by
+          simp [h3, List.isEmpty_eq_false_iff.mpr h4]
+        simp [this, h2]
+      | succ k =>
+        right
+        exact ⟨k, d', ids', by simpa using h1, by omega, h3, h4⟩
+
+/-- **exactly the selected main packages with a non-empty id list start the service, with their own
+    component identifier**: main package number `j` is in the list iff its directory is selected
+    (`*` or listed itself) and its component lists an id -/
+theorem service_start_exact (entries : List String) (mains : List (String × List Nat)) (j : Nat) :
+    j ∈ serviceStarts entries mains ↔
+      ∃ d ids, mains[j]? = some (d, ids) ∧ ("*" ∈ entries ∨ d ∈ entries) ∧ ids ≠ [] := by
+  unfold serviceStarts
+  rw [serviceStartsFrom_mem]
+  constructor
+  · rintro ⟨k, d, ids, h1, h2, h3, h4⟩
+    have : j = k := by omega
+    subst this
+    exact ⟨d, ids, h1, (isMainEntry_iff _ _).mp h3, h4⟩
+  · rintro ⟨d, ids, h1, h2, h3⟩
+    exact ⟨j, d, ids, h1, by omega, (isMainEntry_iff _ _).mpr h2, h3⟩
+
+/-- … **once**: the list is strictly increasing -/
+theorem serviceStartsFrom_sorted (entries : List String) (mains : List (String × List Nat)) : ∀ i0,
+    (serviceStartsFrom entries i0 mains).Pairwise (· < ·) ∧ ∀ j ∈ serviceStartsFrom entries i0 mains, i0 ≤ j := by
+  induction mains with
+  | nil => intro i0; simp [serviceStartsFrom]
+  | cons m r ih =>
+    intro i0
+    obtain ⟨d, ids⟩ := m
+    obtain ⟨h1, h2⟩ := ih (i0 + 1)
+    simp only [serviceStartsFrom]
+    split
+    · refine ⟨?_, ?_⟩
+      · simp only [List.singleton_append, List.pairwise_cons]
+        exact ⟨fun j hj => by have := h2 j hj; omega, h1⟩
+      · intro j hj
+        simp only [List.singleton_append, List.mem_cons] at hj
+        rcases hj with rfl | hj
+        · omega
+        · have := h2 j hj; omega
+    · simp only [List.nil_append]
+      exact ⟨h1, fun j hj => by have := h2 j hj; omega⟩
+
+theorem service_start_once (entries : List String) (mains : List (String × List Nat)) :
+    (serviceStarts entries mains).Nodup := by
+  have := (serviceStartsFrom_sorted entries mains 0).1
+  exact this.imp (fun h => Nat.ne_of_lt h)
+
+example : serviceStarts ["cmd/m0"] [("cmd/m0", [1, 2]), ("cmd/m0x", [3]), ("cmd/m0/tools/dump", [4])] = [0] := by decide
+example : serviceStarts ["*"] [("cmd/a", [1]), ("cmd/b", []), (".", [2])] = [0, 2] := by decide
+example : serviceStarts [] [("cmd/a", [1])] = [] := by decide
+
 end GoatSpec.C05
